@@ -581,6 +581,9 @@ func (m *e2Machine) Apply(a pt.Action) (v *pt.Violation) {
 		}) {
 			exitWith(viol("C16:request-never-answered:patch", "PatchDocument(%s, %s) never returned", a.T, a.V))
 		}
+		if err == nil && resp == nil {
+			return viol("C16:request-answered-with-neither-response-nor-error:patch", "PatchDocument(%s, %s) returned neither a response nor an error", a.T, a.V)
+		}
 		m.drain()
 		m.last = fmt.Sprintf("patch err=%v", err != nil)
 		if err != nil && m.p.Tolerant {
